@@ -88,8 +88,8 @@ def ref_native(n: int, edges: List[Tuple[int, int]], k: int, allow_empty: bool, 
             G = lambda v, r=r: (f"region{r}", v)  # noqa: E731
             for v in range(n):
                 out.append(cn.iff(G(v), cn.cmp("==", D(v), ("c", r))))
-            out.append(("GRAPH_ACTIVE_VERTICES_CONNECTED", ("c", n), ("c", len(edges))) + tuple(G(v) for v in range(n))
-                       + tuple(("c", x) for e in edges for x in e))
+            out.append(cn.native("GRAPH_ACTIVE_VERTICES_CONNECTED", [("c", n), ("c", len(edges))] + [G(v) for v in range(n)]
+                                 + [("c", x) for e in edges for x in e]))
             if not allow_empty:
                 out.append(cn.cmp(">=", cn.add([("b2i", G(v)) for v in range(n)]), ("c", 1)))
         if roots is not None:
